@@ -70,7 +70,14 @@ class Pedigree:
         self.reads_ref = []
         for i in range(self.n):
             rr, cc = [], []
-            for k in range(self.n_reads[i]):
+            # where the zero-count rows sit differs between individuals: trailing padding (as call-pedigree lays it out), leading, or interleaved
+            free = maxr - self.n_reads[i]
+            slots = list(range(maxr))
+            if i % 3 == 1:
+                slots = slots[free:]
+            elif i % 3 == 2 and free:
+                slots = [x for x in slots if x != 1][: self.n_reads[i]]
+            for k_, k in zip(slots, range(self.n_reads[i])):
                 h = self.haps[rng.integers(self.H)]
                 e = [0.05, 0.15, 0.3][rng.integers(3)]
                 rd = [[e, e] for _ in range(2)]
@@ -78,10 +85,10 @@ class Pedigree:
                     rd[j][int(h[j])] = 1 - e
                 if k == 1:
                     rd[0] = [float("nan"), float("nan")]
-                self.read_dists[i, k] = np.array(rd)
-                self.read_counts[i, k] = 1 + (k + i) % 3
+                self.read_dists[i, k_] = np.array(rd)
+                self.read_counts[i, k_] = 1 + (k + i) % 3
                 rr.append([None if rd[j][0] != rd[j][0] else rd[j] for j in range(2)])
-                cc.append(int(self.read_counts[i, k]))
+                cc.append(int(self.read_counts[i, k_]))
             self.reads_ref.append((rr, cc))
         self.genos = [ref.multisets(self.alleles, int(p)) for p in self.ploidy]
         self._llk = {}
